@@ -368,3 +368,10 @@ Theorem C12_pandas_float_unaffected (pd_get_loc : list label -> label -> outcome
   pandas_loop float_series_reindex float_assign_cast st new_span mf [] PNone names r = Ret r.
 Proof. exact (pandas_float_unaffected pd_get_loc pd_contains cast st r names new_span new_id fresh mf). Qed.
 Print Assumptions C12_pandas_float_unaffected.
+
+(* ... and for any other pandas index (pd.Index of ints / strs, irregular DatetimeIndex) under the plain model of get_loc /
+   __contains__ (position of the label; compared with every recorded pandas answer on duplicate-free indexes) *)
+Theorem C12_plain_index_old_span_ok (ls labels : list label) :
+  old_span_ok (fun l => plain_get_loc l) (fun l => plain_contains l) (SPandas ls) labels.
+Proof. exact (plain_index_old_span_ok ls labels). Qed.
+Print Assumptions C12_plain_index_old_span_ok.
